@@ -442,13 +442,20 @@ def data_obligations(ck: Ck, data: bytes, tb: dict) -> None:
                   f'{len(tb["bases"])} definitions store base names')
 
 
-def corr_lazy(ck: Ck, data: bytes, tb: dict) -> None:
+def corr_lazy(ck: Ck, data: bytes, tb: dict, via: bool = True) -> None:
     """Which blocks are decoded after each engine-style query: real EngineDB.get_ent vs SM/LazyDb.v get_ent."""
     rng = ck.rng
     names, ident = tb['names'], tb['ident']
     alias_ids = list(tb['bases'])
     inv = {v: k for k, v in ident.items()}
+    # corpus (runs first): every alias whose target lives in ANOTHER block asked first on a fresh database, then
+    # target-before-alias and alias-before-target
+    block_of = {c: i for i, ids in enumerate(tb['blocks']) for c in ids}
+    cross = [(a, b) for a, bs in sorted(tb['bases'].items()) for b in bs if b and block_of.get(a) != block_of.get(b)]
+    ck.extra['cross_block_aliases'] = [(inv[a], inv[b]) for a, b in cross]
     seqs = []
+    for a, b in cross:
+        seqs += [[inv[a]], [inv[b], inv[a]], [inv[a], inv[b], inv[a]]]
     for _ in range(ck.budget(24, 200)):
         qs = []
         for _ in range(rng.choice([1, 4, 10, 25])):
@@ -467,37 +474,47 @@ def corr_lazy(ck: Ck, data: bytes, tb: dict) -> None:
         db = fresh_db(data)
         trace = []
         for q in qs:
+            res: list[int] = []
             try:
                 ent = db.get_ent(q)
                 okv = 1 if ent.classname.casefold() == q.casefold() else 2
+                # what the stored base names were replaced by: the class of the definition object, 0 = still a name
+                for b in ent.bases:
+                    nm = b if isinstance(b, str) else b.classname
+                    if nm.casefold() != '_cbaseentity_':
+                        res.append(0 if isinstance(b, str) else ident.get(nm.casefold(), 0))
             except KeyError:
                 okv = 0
-            trace.append((okv, [i for i, (_, blob) in enumerate(db.unparsed) if not blob]))
+            trace.append((okv, [i for i, (_, blob) in enumerate(db.unparsed) if not blob], res))
+            ck.hist('lazy_answer_bases', 'none' if not res else ('resolved' if all(res) else 'left-as-name'))
         rows.append((qs, trace))
         ck.count('corr_lazy_sequences')
         ck.hist('lazy_seq_len', len(qs))
         if len(qs) > 1:
             ck.seen(('lazyseq', tuple(qs)))
-    ck.sample({'lazy_queries': rows[1][0][:6], 'blocks_decoded_after_each': [t[1] for t in rows[1][1][:6]]})
+    ck.sample({'lazy_queries': rows[1][0][:6], 'blocks_decoded_after_each': [t[1] for t in rows[1][1][:6]],
+               'bases_of_answers': [t[2] for t in rows[1][1][:6]]})
     pre = PRE + '''
 Definition ent0 : Type := (N * list N)%%type.
 Definition bases_tbl : list (N * list N) := %s.
 Definition bases_of (c : N) : list N := match find (fun p => fst p =? c) bases_tbl with Some p => snd p | None => [] end.
 Definition dec (cs : list N) (data : N) : list ent0 := map (fun c => (c, bases_of c)) cs.
 Definition blocksN : list (list N * N) := %s.
-Definition q1 (d : db N ent0 N) (c : N) := get_ent N ent0 N N.eqb dec (fun e => snd e) (N.eqb 0) 0 (List.length blocksN) d c.
-Fixpoint trace (d : db N ent0 N) (qs : list N) : list (N * list nat) :=
+Definition q1 (d : db N ent0 N) (c : N) := get_full N ent0 N N.eqb dec (fun e => snd e) (N.eqb 0) 0 lazy_via_get_ent (List.length blocksN) d c.
+Fixpoint trace (d : db N ent0 N) (qs : list N) : list (N * list nat * list N) :=
   match qs with [] => [] | c :: r => let '(x, d') := q1 d c in
-    ((match x with Some e => if fst e =? c then 1 else 2 | None => 0 end) + (if oof _ _ _ d' then 100 else 0),
-     parsed_blocks N ent0 N (N.eqb 0) d') :: trace d' r end.
-Fixpoint tr_eqb (a b : list (N * list nat)) : bool :=
-  match a, b with [], [] => true | (x, l) :: a', (y, m) :: b' => (x =? y) && nlist_eqb (map N.of_nat l) (map N.of_nat m) && tr_eqb a' b' | _, _ => false end.
+    ((match x with Some (e, _) => if fst e =? c then 1 else 2 | None => 0 end) + (if oof _ _ _ d' then 100 else 0),
+     parsed_blocks N ent0 N (N.eqb 0) d',
+     match x with Some (_, rb) => map (fun o => match o with Some b => fst b | None => 0 end) rb | None => [] end) :: trace d' r end.
+Fixpoint tr_eqb (a b : list (N * list nat * list N)) : bool :=
+  match a, b with [], [] => true | (x, l, p) :: a', (y, m, q) :: b' => (x =? y) && nlist_eqb (map N.of_nat l) (map N.of_nat m) && nlist_eqb p q && tr_eqb a' b' | _, _ => false end.
 ''' % (coq_list('(%d, [%s])' % (k, ';'.join(map(str, v))) for k, v in sorted(tb['bases'].items())),
        coq_list('([%s], %d)' % (';'.join(map(str, ids)), i + 1) for i, ids in enumerate(tb['blocks'])))
     lit = coq_list('([%s], %s)' % (';'.join(str(ident.get(q.casefold(), 0)) for q in qs),
-                                   coq_list('(%d, [%s]%%nat)' % (okv, ';'.join(map(str, pb))) for okv, pb in trace))
+                                   coq_list('(%d, [%s]%%nat, [%s])' % (okv, ';'.join(map(str, pb)), ';'.join(map(str, res)))
+                                            for okv, pb, res in trace))
                    for qs, trace in rows)
-    vals = ck.coq_eval(IMPORTS, [f'bad_idx (fun c : list N * list (N * list nat) => tr_eqb (trace (init N ent0 N blocksN) (fst c)) (snd c)) 0 {lit}'],
+    vals = ck.coq_eval(IMPORTS, [f'bad_idx (fun c : list N * list (N * list nat * list N) => tr_eqb (trace (init N ent0 N blocksN) (fst c)) (snd c)) 0 {lit}'],
                        name='lazy', preamble=pre, timeout=900)
     if vals is None:
         ck.obligation('correspondence:lazy_db', False, 'model could not be evaluated')
@@ -506,8 +523,9 @@ Fixpoint tr_eqb (a b : list (N * list nat)) : bool :=
     bad = parse_coq_N_list(vals[0])
     ck.obligation('correspondence:lazy_db', not bad,
                   f'{len(rows)} query sequences on fresh copies of the shipped database ({len(tb["blocks"])} blocks, {len(names)} classes, '
-                  f'{len(alias_ids)} definitions with stored bases): set of decoded blocks and hit/miss after every query, '
-                  f'EngineDB.get_ent vs SM/LazyDb.v: {len(bad)} disagreements')
+                  f'{len(alias_ids)} definitions with stored bases): set of decoded blocks, hit/miss and what every stored base '
+                  f'name of the answer was replaced by, after every query, EngineDB.get_ent vs SM/LazyDb.v get_full (bases '
+                  f'resolved {"through get_ent" if via else "by a look-up in ent_map"}, as read from the source): {len(bad)} disagreements')
     if bad:
         ck.tie_broken.append('correspondence EngineDB.get_ent/_parse_block (SM/LazyDb.v)')
         ck.extra['lazy_disagreement'] = {'queries': rows[bad[0]][0], 'impl_trace': rows[bad[0]][1]}
@@ -1119,12 +1137,15 @@ def run(ck: Ck) -> None:
             'bit_literals_are_128_127': 'bit_literals_ok',
             'index_formats': 'index_formats_ok',
             'shared_strings_fit_u16': 'N.ltb shared_strings 65536',
+            'lazy_bases_resolved_through_get_ent': 'lazy_via_get_ent',
+            'lazy_block_marked_before_bases_loop': 'lazy_mark_before_resolve',
+            'lazy_map_lookup_is_refuted': 'map_lookup_breaks',
         }, name='c16')
         data_obligations(ck, data, tb)
         corr_writer_reader(ck)
         corr_bits(ck)
         corr_strdict(ck)
-        corr_lazy(ck, data, tb)
+        corr_lazy(ck, data, tb, bool(side.get('engine_db', {}).get('lazy', {}).get('via_get_ent', True)))
         # informational: duplicates in the order lists (harmless, see c16_order_roundtrip)
         vo = side.get('engine_db', {}).get('vt_order', [])
         ck.extra['value_type_order_duplicates'] = sorted({x for x in vo if vo.count(x) > 1})
@@ -1150,6 +1171,7 @@ def run(ck: Ck) -> None:
         ck.explain('correspondence:BinStrDict')
     if any(k.startswith('lazy-') for k in keys):
         ck.explain('correspondence:lazy_db')
+        ck.explain('instance:lazy_')
 
 
 # =============================================================================================== replay
